@@ -650,7 +650,11 @@ def option_unwrap_or(eng, c, a, g):
     o = a[0]; p = opt_payload(o)
     if p is None: return a[1]
     return ite(opt_is_some(o), p, a[1])
-def btreeset_contains_pkg(eng, c, a, g): return eng.cfg['pkg_excluded_exact']
+def btreeset_contains_pkg(eng, c, a, g):
+    name = textid(eng, a[1]); r = FALSE
+    for cnd, pl, sq in containers(eng, a[0]):
+        for gk, v in sq.items: r = OR(r, AND(cnd, gk, eng.cfg['str_eq'][(name.tag, v.tag)]))
+    return r
 def deref_identity(eng, c, a, g): return a[0]
 def iter_any(eng, c, a, g):
     it = eng.load(a[0]); clo = a[1]; r = FALSE
@@ -703,6 +707,7 @@ _C06 = [
     (R(r'Option::<.*>::flatten'), option_flatten),
     (R(r'Option::<.*>::unwrap_or'), option_unwrap_or),
     (R(r'BTreeSet::<StackString>::contains::<.*>'), btreeset_contains_pkg),
+    (R(r'BTreeSet::<StackString>::iter'), slice_iter),
     (R(r'<(Vec<.*>|StackString) as Deref>::deref'), deref_identity),
     (R(r'StackString::as_str'), deref_identity),
     (R(r'<.* as Iterator>::any::<.*'), iter_any),
@@ -786,3 +791,129 @@ def slice_last(eng, c, a, g):
     for c_, p_ in items: val = p_ if val is None else ite(c_, p_, val)
     return opt(some, val)
 MODELS_NORM = [(re.compile(r'<impl \[.*\]>::last'), slice_last), (re.compile(r'<str as ToString>::to_string'), deref_identity)] + MODELS_NORM
+
+# ------------------------------------------------------------------ C01 kernel: vec! lowering, IndexMap entries, misc
+def box_new_uninit(eng, c, a, g): return BoxV(Agg([]))
+def array_to_vec(eng, c, a, g):
+    n = int(re.search(r', (\d+)>$', c).group(1))
+    v = a[0].val if isinstance(a[0], BoxV) else a[0]
+    # path written by MIR: (*box).1 .0 .0 = [elems]
+    for idx in (1, 0, 0):
+        v = v.f[idx]
+    assert isinstance(v, Agg) and len(v.f) == n, v
+    cap = max(n, eng.cfg.get('VEC', 4))
+    return VecModel(list(v.f) + [None] * (cap - n), BV(n, eng.W))
+def iter_collect_vec(eng, c, a, g):
+    it = a[0]
+    items = [v for av, v in it.remaining()]
+    avs = [av for av, v in it.remaining()]
+    cnt = BV(0, eng.W)
+    for av in avs: cnt = IF(av, ADD(cnt, 1), cnt)
+    cap = max(len(items), eng.cfg.get('VEC', 4))
+    return VecModel(items + [None] * (cap - len(items)), cnt)     # availability of a Vec IntoIter is a prefix
+class EntryV:
+    def __init__(self, mapptr, key): self.mapptr, self.key = mapptr, key
+    def merge(self, g, o): return EntryV(ite(g, self.mapptr, o.mapptr), ite(g, self.key, o.key))
+def indexmap_entry(eng, c, a, g): return EntryV(a[0], a[1])
+def indexmap_entry_or_default(eng, c, a, g):
+    e = a[0]
+    vty = re.search(r'Entry::<.*, (\w+)>::or_default', c).group(1)
+    dname = eng.mir.index.get((vty, 'Default', 'default'))
+    if dname is None: raise Unsupported('no Default for ' + vty)
+    dflt = eng.call(dname, [], g)
+    refs = []
+    for cnd, (r, p), m in containers(eng, e.mapptr):
+        n = len(m.present)
+        hit = [AND(m.present[i], key_match(eng, e.key, m.keys[i])) if m.keys[i] is not None else FALSE for i in range(n)]
+        found = OR(*hit)
+        cntfree = m.count(eng.W)
+        eng.obligations.append(('IndexMap model capacity', AND(g, cnd, NOT(found), EQ(cntfree, BV(n, eng.W)))))
+        newpos = [AND(NOT(found), EQ(cntfree, BV(i, eng.W))) for i in range(n)]      # slots are kept compact
+        k = textid(eng, e.key)
+        nm = SlotMap([OR(m.present[i], newpos[i]) for i in range(n)], [ite(newpos[i], k, m.keys[i]) for i in range(n)], [ite(newpos[i], dflt, m.vals[i]) for i in range(n)])
+        eng.write((r, p), nm, AND(g, cnd))
+        for i in range(n): refs.append((AND(cnd, OR(hit[i], newpos[i])), (r, p + (('k', i),))))
+    return Ptr(refs)
+def slotmap_retain(eng, c, a, g):
+    clo = a[1]
+    for cnd, (r, p), m in containers(eng, a[0]):
+        keep = []
+        for i in range(len(m.present)):
+            gi = AND(g, cnd, m.present[i])
+            if z3.is_false(gi) or m.vals[i] is None: keep.append(m.present[i]); continue
+            k = eng.call_closure(clo, [ref_to(m.keys[i], 'key'), Ptr([(TRUE, (r, p + (('k', i),)))])], gi)
+            keep.append(AND(m.present[i], k))
+        m2 = eng.read((r, p))
+        # compaction is not modelled: retained slots keep their positions (order preserved, holes allowed)
+        eng.write((r, p), SlotMap(keep, m2.keys, m2.vals), AND(g, cnd))
+    return UNIT
+def vec_retain(eng, c, a, g):
+    clo = a[1]
+    for cnd, (r, p), v in containers(eng, a[0]):
+        n = len(v.items)
+        keep = []
+        for i in range(n):
+            gi = AND(g, cnd, ULT(BV(i, eng.W), v.len))
+            if v.items[i] is None or z3.is_false(gi): keep.append(FALSE); continue
+            keep.append(AND(ULT(BV(i, eng.W), v.len), eng.call_closure(clo, [Ptr([(TRUE, (r, p + (('k', i),)))])], gi)))
+        # compact the kept items to the front
+        items = [None] * n; cnt = BV(0, eng.W)
+        for i in range(n):
+            if v.items[i] is None: continue
+            for j in range(i + 1):
+                sel = AND(keep[i], EQ(cnt, BV(j, eng.W)))
+                items[j] = v.items[i] if items[j] is None else ite(sel, v.items[i], items[j])
+            cnt = IF(keep[i], ADD(cnt, 1), cnt)
+        eng.write((r, p), VecModel(items, cnt), AND(g, cnd))
+    return UNIT
+def option_as_deref(eng, c, a, g):
+    o = a[0]
+    if isinstance(o, Ptr): return option_as_ref(eng, c, a, g)
+    return o
+def option_default(eng, c, a, g): return none()
+def bool_default(eng, c, a, g): return FALSE
+def bool_then(eng, c, a, g):
+    if z3.is_false(a[0]): return none()
+    return opt(a[0], eng.call_closure(a[1], [], AND(g, a[0])))
+def option_ref_ne(eng, c, a, g):
+    x, y = deref_val(eng, a[0]), deref_val(eng, a[1])
+    xs, ys = opt_is_some(x), opt_is_some(y)
+    px, py = opt_payload(x), opt_payload(y)
+    same = AND(xs, ys, EQ(uid(eng, px), uid(eng, py))) if (px is not None and py is not None) else FALSE
+    eq = OR(AND(NOT(xs), NOT(ys)), same)
+    return NOT(eq) if c.endswith('::ne') else eq
+def unit_enum_cmp(eng, c, a, g):
+    x, y = deref_val(eng, a[0]), deref_val(eng, a[1])
+    r = EQ(x.tag, y.tag)
+    return NOT(r) if c.endswith('::ne') else r
+def string_default(eng, c, a, g): return StrV('')
+_C01 = [
+    (R(r'Box::<\[.*; \d+\]>::new_uninit'), box_new_uninit),
+    (R(r'box_assume_init_into_vec_unsafe::<.*, \d+>'), array_to_vec),
+    (R(r'<.* as Iterator>::collect::<Vec<.*>>'), iter_collect_vec),
+    (R(r'IndexMap::<.*>::entry'), indexmap_entry),
+    (R(r'Entry::<.*>::or_default'), indexmap_entry_or_default),
+    (R(r'IndexMap::<.*>::retain::<.*'), slotmap_retain),
+    (R(r'Vec::<.*>::retain::<.*'), vec_retain),
+    (R(r'Option::<.*>::as_deref'), option_as_deref),
+    (R(r'<Option<.*> as Default>::default'), option_default),
+    (R(r'<bool as Default>::default'), bool_default),
+    (R(r'<String as Default>::default'), string_default),
+    (R(r'<impl bool>::then::<.*'), bool_then),
+    (R(r'<Option<&Url> as PartialEq>::(eq|ne)'), option_ref_ne),
+    (R(r'<(StaticDependencyKind|DynamicDependencyKind|ImportKind|GraphKind|MediaType|ResolutionKind) as PartialEq>::(eq|ne)'), unit_enum_cmp),
+    (R(r'<Vec<.*> as Deref(Mut)?>::deref(_mut)?'), deref_identity),
+]
+MODELS_NORM = [(re.compile(norm_path(p.pattern)), f) for p, f in _C01] + MODELS_NORM
+
+def panic_model(eng, c, a, g):
+    msg = a[0].s if a and isinstance(a[0], StrV) else c
+    eng.panics.append((f'panic: {msg[:60]}', g)); return UNIT
+MODELS_NORM = [(re.compile(r'(panic|panic_fmt|panic_display|panic_nounwind|unwrap_failed|expect_failed|panic_cold_explicit|unreachable_display)(::<.*>)?'), panic_model)] + MODELS_NORM
+
+def slice_sort_noop(eng, c, a, g):
+    """sorting is only modelled for sequences of at most one element (the C01 kernel stubs template expansion to an empty list)"""
+    for cnd, pl, v in containers(eng, a[0]):
+        if isinstance(v, VecModel): eng.obligations.append(('sort of a sequence longer than 1 is not modelled', AND(g, cnd, ULT(BV(1, eng.W), v.len))))
+    return UNIT
+MODELS_NORM = [(re.compile(r'<impl \[.*\]>::sort'), slice_sort_noop)] + MODELS_NORM
